@@ -46,7 +46,7 @@ class C10Machine(Machine):
         "transitive_curie_remap_applied", "uri_remap_applied", "rewire_applied",
         "chain_merged_later_into_earlier", "discover_with_known_uris", "lineage_depth_ge_3",
         "sub_nonempty", "mutation_right_after_derivation", "chain_same_converter_twice",
-        "curie_remap_applied", "large_root", "followup_add_with_pattern", "same_record_followed_through_lineage", "empty_mapping", "empty_prefix_subset", "same_derivation_again", "alternating_lookups", "intermediate_converter_garbage_collected", "same_derivation_same_result", "subset_given_as_str", "root_with_more_than_256_records", "baseline_without_any_query", "converter_first_queried_after_it_was_an_input",
+        "curie_remap_applied", "large_root", "followup_add_with_pattern", "same_record_followed_through_lineage", "empty_mapping", "empty_prefix_subset", "same_derivation_again", "alternating_lookups", "intermediate_converter_garbage_collected", "same_derivation_same_result", "subset_given_as_str", "root_with_more_than_256_records", "baseline_without_any_query", "converter_first_queried_after_it_was_an_input", "fresh_strings_asked_of_derived_first",
     ]
 
     @classmethod
@@ -471,12 +471,15 @@ class C10Machine(Machine):
         def frame():
             # (expansion: only cells that have the converter's delimiter - the others make pd_expand raise)
             d = conv.delimiter
-            df = pd.DataFrame({"c": [x for x in cells if d in x]})
+            sub = [x for x in cells if d in x]
+            if not sub:
+                return ["no cell with the delimiter"]
+            df = pd.DataFrame({"c": sub})
             try:
                 conv.pd_expand(df, "c", target_column="t")
-            except Exception as e:  # noqa: BLE001
+                return ["ok", [None if pd.isna(x) else x for x in df["t"]]]
+            except Exception as e:  # noqa: BLE001 - whatever the bulk function does is an observation
                 return ["exc", type(e).__name__]
-            return ["ok", [None if pd.isna(x) else x for x in df["t"]]]
 
         def file():
             path = os.path.join(self._bulk_dir(), "cells.tsv")
@@ -484,10 +487,10 @@ class C10Machine(Machine):
                 csv.writer(f, delimiter="\t").writerows([[x] for x in cells])
             try:
                 conv.file_compress(path, 0, header=False)
+                with open(path, newline="", encoding="utf-8") as f:
+                    return ["ok", [row[0] if row else "" for row in csv.reader(f, delimiter="\t")]]
             except Exception as e:  # noqa: BLE001
                 return ["exc", type(e).__name__]
-            with open(path, newline="", encoding="utf-8") as f:
-                return ["ok", [row[0] if row else "" for row in csv.reader(f, delimiter="\t")]]
 
         return {"pd_expand": frame(), "file_compress": file()}
 
@@ -719,6 +722,7 @@ class C10Machine(Machine):
             self._reach_after_derivation(kind, op, hs, result)
             if not op.get("cold"):
                 self._alternate(result, sorted(set(hs)), None, site, "input_changed", op)
+                self._asked_elsewhere_first(result, sorted(set(hs)), site, "input_changed", op)
             self.last_was_derivation = h
             if self._depth(h) >= 3:
                 self.probe("lineage_depth_ge_3")
@@ -815,6 +819,8 @@ class C10Machine(Machine):
             if d is not None:
                 raise Violation(PROP, "leak_to_ancestor", site,
                                 {"mutated": h, "ancestor": a, "diff": d, "op": op})
+        if anc and not op.get("cold"):
+            self._asked_elsewhere_first(e.conv, anc, site, "leak_to_ancestor", op)
         if err is None and rd.get("pattern") and anc:
             self.probe("followup_add_with_pattern")
         if err is None and op["merge"] and hit_inherited and anc:
@@ -838,6 +844,11 @@ class C10Machine(Machine):
         pcands = [pr for pr in self.pairs if hint and pr[0] == hint][:1] + [self.pairs[self.steps % len(self.pairs)]]
         for a in [x for x in far_ids if self.entries[x].conv is not None and self.entries[x].lite["answers"] is not None][:3]:
             ae = self.entries[a]
+            # (records, views and index dictionaries first, before any lookup of the harness touches the input)
+            pre = observe.structure(ae.conv)
+            if pre != ae.lite["structure"]:
+                raise Violation(PROP, kind_of_violation, site,
+                                {"ancestor": a, "diff": observe.diff(ae.lite["structure"], pre, path="/structure"), "op": op})
             # the same table through the bulk functions, derived converter first, its input next
             self._bulk(near)
             gotb = self._bulk(ae.conv)
@@ -865,6 +876,35 @@ class C10Machine(Machine):
             self._settle(ae)
         self._settle(self._entry_of(near))
         self.probe("alternating_lookups")
+
+    def _asked_elsewhere_first(self, near, far_ids, site, kind_of_violation, op):
+        """Strings that NO converter of the world has been asked so far are asked of the derived / modified
+        converter first and of its inputs next. An input's answer must be what a converter freshly built
+        from the input's (baseline) records answers - whoever was asked first."""
+        c = self.curies
+        k = self.steps
+        cp, up = self.config["curie_pool"], self.config["uri_pool"]
+        uris = [up[(k + j) % len(up)] + f"z{k}_{j}" for j in range(3)]
+        observe.answers(near, uris + [cp[(k + j) % len(cp)] + near.delimiter + f"z{k}_{j}" for j in range(2)], [], full=False)
+        for a in [x for x in far_ids if self.entries[x].conv is not None and self.entries[x].lite["answers"] is not None][:3]:
+            ae = self.entries[a]
+            base = ae.lite["structure"]
+            strings = uris + [cp[(k + j) % len(cp)] + base["delimiter"] + f"z{k}_{j}" for j in range(2)]
+            try:
+                ref = c.Converter([c.Record(**d) for d in copy.deepcopy(base["records"])], delimiter=base["delimiter"])
+            except Exception:  # noqa: BLE001 - records the constructor / Record class no longer takes: no reference
+                self.event("no_reference_converter_for_input")
+                continue
+            observe.answers(near, strings, [], full=False)
+            got = observe.answers(ae.conv, strings, [], full=False)["strings"]
+            want = observe.answers(ref, strings, [], full=False)["strings"]
+            if got != want:
+                raise Violation(PROP, kind_of_violation, site,
+                                {"ancestor": a, "strings_first_asked_of_the_other_converter": True,
+                                 "diff": observe.diff(want, got), "op": op})
+            self._settle(ae)
+        self._settle(self._entry_of(near))
+        self.probe("fresh_strings_asked_of_derived_first")
 
     def _refresh_unstated(self, exclude):
         """Descendants / siblings: a direction the property does not state. Count, refresh, never report."""
